@@ -337,6 +337,108 @@ def child_main(spec_path: str, out_path: str) -> None:
             return "dialect:" + cls_name(type(d))
         raise ValueError("unknown op " + kind)
 
+    if spec.get("mode") == "L":
+        # ---- load interference: thread A works in the dialects loaded so far, thread B makes the FIRST use of the next one;
+        # the two are sequenced with events so the interleaving is always the same
+        import re as _re
+        import enum as _enum
+        from sqlglot.dialects.dialect import Dialect as _Dl
+
+        def canon(v, depth=0):
+            if depth > 7:
+                return "…"
+            if isinstance(v, dict):
+                return "{" + ",".join(sorted(canon(k, depth + 1) + ":" + canon(x, depth + 1) for k, x in v.items())) + "}"
+            if isinstance(v, (set, frozenset)):
+                return "s{" + ",".join(sorted(canon(x, depth + 1) for x in v)) + "}"
+            if isinstance(v, (list, tuple)):
+                return "[" + ",".join(canon(x, depth + 1) for x in v) + "]"
+            if isinstance(v, type):
+                return f"<{v.__module__}.{v.__qualname__}>"
+            if isinstance(v, _enum.Enum):
+                return str(v)
+            if isinstance(v, _re.Pattern):
+                return "re:" + v.pattern
+            if callable(v):
+                return "fn:" + getattr(v, "__qualname__", type(v).__name__)
+            if isinstance(v, (str, int, float, bool, bytes)) or v is None:
+                return repr(v)
+            r = repr(v)
+            return r if " at 0x" not in r else "<" + type(v).__name__ + ">"
+
+        def tables(d):
+            c = type(_Dl.get_or_raise(d))
+            res = {}
+            from sqlglot.optimizer.annotate_types import TypeAnnotator as _TA
+
+            for role, k in (("dialect", c), ("tokenizer", c.tokenizer_class), ("jsonpath_tokenizer", c.jsonpath_tokenizer_class),
+                            ("parser", c.parser_class), ("generator", c.generator_class), ("annotator", _TA)):
+                seen_ = set()
+                for kk in k.__mro__:
+                    if kk is object:
+                        continue
+                    for name_, v in list(vars(kk).items()):
+                        if name_ in seen_ or name_.startswith("__"):
+                            continue
+                        seen_.add(name_)
+                        if isinstance(v, (dict, set, frozenset, list)) and not (role == "dialect" and name_ == "_classes"):
+                            res[f"{role}.{name_}"] = hashlib.sha1(canon(v).encode("utf-8", "replace")).hexdigest()[:12] + f":{len(v)}"
+            return res
+
+        def probe(d, sql):
+            try:
+                if sql.startswith("annotate:"):
+                    from sqlglot.optimizer.annotate_types import annotate_types as _at
+
+                    e = _at(sqlglot.parse_one(sql[len("annotate:"):], read=d), dialect=d)
+                    return "types:" + repr([x.type.sql() if x.type else None for x in e.selects])
+                return "sql:" + repr(sqlglot.transpile(sql, read=d, write=d))
+            except Exception as e:  # noqa
+                return "raise:" + type(e).__name__ + ":" + str(e).splitlines()[0][:120]
+
+        order = spec["order"]
+        probes = spec["probes"]
+        go = [threading.Event() for _ in order]
+        done = [threading.Event() for _ in order]
+        snaps: list = []
+        errors: list = []
+
+        def loader():
+            TID[threading.get_ident()] = 1
+            for k, d in enumerate(order):
+                go[k].wait(30)
+                try:
+                    _Dl.get_or_raise(d)  # the first use of d in this process
+                except BaseException as e:  # noqa
+                    errors.append(f"first use of {d}: {type(e).__name__}: {e}")
+                done[k].set()
+
+        def worker_a():
+            TID[threading.get_ident()] = 0
+            for k, d in enumerate(order):
+                go[k].set()
+                done[k].wait(60)
+                snap = {}
+                for j in range(k + 1):
+                    dj = order[j]
+                    try:
+                        snap[dj] = {"fp": tables(dj), "probes": [probe(dj, q) for q in probes]}
+                    except BaseException as e:  # noqa
+                        errors.append(f"snapshot of {dj}: {type(e).__name__}: {e}")
+                snaps.append(snap)
+
+        t0 = time.time()
+        ths = [threading.Thread(target=f, daemon=True) for f in (worker_a, loader)]
+        for th in ths:
+            th.start()
+        for th in ths:
+            th.join(max(0.0, t0 + spec.get("timeout", 60) - time.time()))
+        with open(out_path, "w") as f:
+            json.dump({"snaps": snaps, "errors": errors, "hang": [i for i, th in enumerate(ths) if th.is_alive()],
+                       "exec_counts": dict(EXEC_COUNT), "wall": round(time.time() - t0, 3)}, f)
+        sys.stdout.flush()
+        os._exit(0)
+
     n = len(spec["threads"])
     results = [[] for _ in range(n)]
     op_execs = [[] for _ in range(n)]
@@ -460,6 +562,11 @@ THEOREMS = [P + n for n in (
     "fresh_workers_results_prefix",
     "fresh_workers_schedule_independent",
     "cached_worker_breaks_results",
+    "metaclass_rebinds_never_mutates",
+    "rebinding_construction_frame",
+    "rebinding_construction_wf",
+    "rebinding_loads_frame",
+    "inplace_update_leaks_into_other_classes",
 )]
 
 PYTHON = sys.executable
@@ -932,6 +1039,130 @@ def worker_factories(chk: Check) -> list:
     return out
 
 
+# ---- class construction: do the metaclass hooks rebind, or mutate inherited tables in place? ------------------------
+MUTATORS = {"update", "add", "pop", "popitem", "setdefault", "append", "extend", "insert", "remove", "discard", "clear",
+            "sort", "reverse", "__setitem__", "__delitem__", "__ior__", "__iand__", "__isub__", "difference_update",
+            "intersection_update", "symmetric_difference_update"}
+
+
+def metaclass_hooks(chk: Check) -> dict:
+    """every `__new__` / `__init__` of a metaclass (a class deriving from `type`) and every `__init_subclass__` in sqlglot:
+    count plain rebinding stores `x.ATTR = value`, list every in-place update of an attribute value"""
+    hooks, mutations, rebinds = [], [], 0
+    root = os.path.join(REPO, "sqlglot")
+    for dp, _, files in os.walk(root):
+        for fn_ in sorted(files):
+            if not fn_.endswith(".py"):
+                continue
+            path = os.path.join(dp, fn_)
+            rel = os.path.relpath(path, REPO)
+            src = open(path, encoding="utf-8").read()
+            if "__init_subclass__" not in src and "(type)" not in src:
+                continue
+            tree = ast.parse(src)
+            for cls in [n for n in ast.walk(tree) if isinstance(n, ast.ClassDef)]:
+                is_meta = any((isinstance(b, ast.Name) and b.id == "type") for b in cls.bases)
+                for m in [n for n in cls.body if isinstance(n, (ast.FunctionDef, ast.AsyncFunctionDef))]:
+                    if not (m.name == "__init_subclass__" or (is_meta and m.name in ("__new__", "__init__"))):
+                        continue
+                    hooks.append(f"{rel}:{cls.name}.{m.name}")
+                    r, mu = _scan_hook(m)
+                    rebinds += r
+                    mutations += [f"{rel}:{ln}: {cls.name}.{m.name}: {w}" for ln, w in mu]
+    for need in ("_Dialect.__new__", "__init_subclass__"):
+        if not any(need in h for h in hooks):
+            chk.broken.append({"kind": "translator", "what": f"C19 translator: structure changed: no {need} hook found"})
+    res = {"hooks": sorted(hooks), "rebinds": rebinds, "mutations": sorted(mutations)}
+    chk.cov["metaclass_hooks"] = res
+    return res
+
+
+def _scan_hook(fn: ast.AST):
+    rebinds = 0
+    mutations = []
+
+    def attr_of(node):
+        """(receiver name, attribute) if node is `name.ATTR`"""
+        if isinstance(node, ast.Attribute) and isinstance(node.value, ast.Name):
+            return (node.value.id, node.attr)
+        return None
+
+    def block(stmts, fresh, alias):
+        nonlocal rebinds
+        fresh = set(fresh)
+        alias = dict(alias)
+        for st in stmts:
+            # in-place updates inside this statement (calls, aug-assignments, item stores / deletes)
+            for node in ast.walk(st) if not isinstance(st, (ast.If, ast.For, ast.While, ast.With, ast.Try, ast.FunctionDef)) else _shallow(st):
+                if isinstance(node, ast.Call) and isinstance(node.func, ast.Attribute) and node.func.attr in MUTATORS:
+                    tgt = node.func.value
+                    key = attr_of(tgt) or (alias.get(tgt.id) if isinstance(tgt, ast.Name) else None)
+                    if key and key not in fresh:
+                        mutations.append((node.lineno, f"{key[0]}.{key[1]}.{node.func.attr}(...)"))
+                if isinstance(node, ast.AugAssign):
+                    tgt = node.target
+                    inner = tgt.value if isinstance(tgt, ast.Subscript) else tgt
+                    key = attr_of(inner) or (alias.get(inner.id) if isinstance(inner, ast.Name) else None)
+                    if key and key not in fresh:
+                        mutations.append((node.lineno, f"{key[0]}.{key[1]} {type(node.op).__name__}= ..."))
+                if isinstance(node, (ast.Assign, ast.Delete)):
+                    for tgt in node.targets:
+                        for sub in ([tgt] if not isinstance(tgt, (ast.Tuple, ast.List)) else tgt.elts):
+                            if isinstance(sub, ast.Subscript):
+                                key = attr_of(sub.value) or (alias.get(sub.value.id) if isinstance(sub.value, ast.Name) else None)
+                                if key and key not in fresh and key[1] != "_classes":
+                                    mutations.append((node.lineno, f"{key[0]}.{key[1]}[...] {'=' if isinstance(node, ast.Assign) else 'del'}"))
+            # rebinding stores and aliases made by this statement
+            if isinstance(st, (ast.Assign, ast.AnnAssign)):
+                targets = st.targets if isinstance(st, ast.Assign) else [st.target]
+                for tgt in targets:
+                    for sub in ([tgt] if not isinstance(tgt, (ast.Tuple, ast.List)) else tgt.elts):
+                        k = attr_of(sub)
+                        if k:
+                            rebinds += 1
+                            # fresh only if the new value is built here (not another attribute's object)
+                            if st.value is not None and not isinstance(st.value, (ast.Attribute, ast.Name)):
+                                fresh.add(k)
+                            else:
+                                fresh.discard(k)
+                        elif isinstance(sub, ast.Name):
+                            v = st.value
+                            if isinstance(v, ast.Attribute) and attr_of(v):
+                                alias[sub.id] = attr_of(v)
+                            else:
+                                alias.pop(sub.id, None)
+            elif isinstance(st, ast.Expr) and isinstance(st.value, ast.Call) and isinstance(st.value.func, ast.Name) and st.value.func.id == "setattr":
+                rebinds += 1
+            for body in _blocks(st):
+                block(body, fresh, alias)
+
+    block(fn.body, set(), {})
+    return rebinds, mutations
+
+
+def _blocks(st):
+    out = []
+    for name in ("body", "orelse", "finalbody"):
+        b = getattr(st, name, None)
+        if isinstance(b, list) and b and isinstance(b[0], ast.stmt) and isinstance(st, (ast.If, ast.For, ast.While, ast.With, ast.Try)):
+            out.append(b)
+    for h in getattr(st, "handlers", []) or []:
+        out.append(h.body)
+    return out
+
+
+def _shallow(st):
+    """the header expressions of a compound statement (its blocks are visited separately)"""
+    out = []
+    for name in ("test", "iter", "target"):
+        v = getattr(st, name, None)
+        if isinstance(v, ast.AST):
+            out += list(ast.walk(v))
+    for it in getattr(st, "items", []) or []:
+        out += list(ast.walk(it))
+    return out
+
+
 def translate(chk: Check) -> str:
     import sqlglot.dialects as D
     import sqlglot.optimizer as O
@@ -943,6 +1174,7 @@ def translate(chk: Check) -> str:
     re = scan_reentries(chk)
     shp = source_shape(chk)
     wf = worker_factories(chk)
+    mh = metaclass_hooks(chk)
     chk.cov["lock_order_scan"] = {"modules_scanned": len(re["scanned"]), "reentry_sites": [f"{m}:{ln}: {w}" for m, ln, w in re["sites"]]}
     chk.cov["_reentry_modules"] = sorted({m for m, _, _ in re["sites"]})
     if len(re["scanned"]) < 60:
@@ -978,6 +1210,11 @@ def translate(chk: Check) -> str:
         "    constructs it in the call (no instance-attribute cache) -/\n"
         "def workerFactories : List (String × Bool) := [" + ", ".join(f"({lean_str(nm)}, {lean_bool(ok)})" for nm, ok in wf) + "]\n"
         "def workersFreshPerCall : Bool := workerFactories.all (·.2) && decide (4 ≤ workerFactories.length)\n"
+        "/-- class construction: the metaclass `__new__`/`__init__` and `__init_subclass__` hooks found in sqlglot, the number of\n"
+        "    plain rebinding stores `x.ATTR = value` in them, and every in-place update of an attribute value -/\n"
+        "def metaclassHooks : List String := [" + ", ".join(lean_str(h) for h in mh["hooks"]) + "]\n"
+        f"def metaclassRebinds : Nat := {mh['rebinds']}\n"
+        "def metaclassMutations : List String := [" + ", ".join(lean_str(h) for h in mh["mutations"]) + "]\n"
         "end SqlglotModel.Generated.C19\n"
     )
 
@@ -1175,6 +1412,128 @@ def shared_spec(chk: Check) -> dict:
         threads.append(prog)
     return {"mode": "S", "probe": False, "switch": rng.choice([1e-6, 1e-6, 1e-5]), "hashseed": rng.randrange(1000),
             "timeout": 40, "threads": threads}
+
+
+LOAD_PROBES = [
+    # interval units (Dialect.VALID_INTERVAL_UNITS / DATE_PART_MAPPING)
+    "SELECT price::INTERVAL ss, amount::INTERVAL tz, x::INTERVAL qq FROM t",
+    "SELECT CAST(a AS INTERVAL QQ), CAST(b AS INTERVAL WW), CAST(c AS INTERVAL MCS)",
+    "SELECT DATE_TRUNC('WW', d), DATEPART(QQ, d), EXTRACT(ISODOW FROM d), DATE_ADD(d, INTERVAL 5 N) FROM t",
+    # time mappings and their tries
+    "SELECT TO_CHAR(d, 'YYYY-MM-DD HH24:MI:SS'), TO_DATE(s, 'DD/MM/YYYY'), DATE_FORMAT(d, '%Y-%m-%d %H:%i'), STRFTIME(d, '%Y-%j') FROM t",
+    # escape tables / quotes
+    "SELECT 'a\\nb', 'it''s', E'x\\ty', \"q\" FROM t",
+    # keyword tries
+    "SELECT top, qualify, ilike, unnest, pivot, \"select\" FROM t",
+    # TRANSFORMS / JSON path parts
+    "SELECT JSON_EXTRACT(j, '$.a[0].b'), j -> 'a' ->> 'b', JSON_EXTRACT_SCALAR(j, '$..c') FROM t",
+    # property tables
+    "CREATE TABLE t (a INT, b TEXT) PARTITIONED BY (a) LOCATION 's3://x' TBLPROPERTIES ('k'='v')",
+    # function tables / type mappings
+    "SELECT DATE_ADD(d, 1), DATEDIFF(a, b), LEN(x), IFNULL(a, b), NVL2(a, b, c), CAST(x AS DATETIME2), CAST(y AS TINYINT), CAST(z AS VARIANT) FROM t",
+    # type coercion tables (TypeAnnotator.COERCES_TO / Dialect.COERCES_TO)
+    "annotate:SELECT COALESCE(CAST(s AS VARCHAR), CAST(d AS DATE)) AS y, CASE WHEN c THEN CAST(s AS VARCHAR) ELSE CAST(ts AS TIMESTAMP) END AS z, "
+    "CAST(a AS DECIMAL(10, 2)) + CAST(b AS BIGINT) AS w FROM t",
+]
+
+
+def load_spec(order: list) -> dict:
+    return {"mode": "L", "probe": False, "switch": 1e-6, "hashseed": 0, "timeout": 90, "order": order, "probes": LOAD_PROBES,
+            "threads": [[], []]}
+
+
+def _snap_diffs(a: dict, b: dict) -> list:
+    """every differing table between two snapshots of one dialect; differing answers only if no table differs"""
+    out = [("table", k, a["fp"].get(k), b["fp"].get(k)) for k in sorted(set(a["fp"]) | set(b["fp"])) if a["fp"].get(k) != b["fp"].get(k)]
+    if not out:
+        out = [("answer", i, x, y) for i, (x, y) in enumerate(zip(a["probes"], b["probes"])) if x != y]
+    return out
+
+
+def _snap_diff(a: dict, b: dict):
+    d = _snap_diffs(a, b)
+    return d[0] if d else None
+
+
+def load_interference(chk: Check, runner: Runner, workers: int, boost: int) -> None:
+    """(a) for dialects X loaded earlier: the FIRST load of Y (by another thread) must change no class-level table reachable
+    from X and none of X's answers; (b) X's tables / answers after other dialects were loaded first must equal those of a
+    process that loads only X"""
+    names, by_attr = dialect_tables()
+    low = sorted(by_attr[nm] for nm in names)
+    rng = chk.rng
+    n_proc = chk.pick(8, 40) * boost
+    k = chk.pick(8, 9)
+    orders = []
+    for i in range(n_proc):
+        orders.append(rng.sample(low, min(k, len(low))))
+    tails = sorted({o[-1] for o in orders})
+    specs = [load_spec(o) for o in orders] + [load_spec([d]) for d in tails]
+    with concurrent.futures.ThreadPoolExecutor(max_workers=workers) as ex:
+        outs = list(ex.map(runner.run, specs))
+    alone = {}
+    for d, out in zip(tails, outs[len(orders):]):
+        if out.get("crash") or not out.get("snaps"):
+            raise HarnessError(f"C19 load-reference process for {d} failed: {str(out.get('crash'))[:300]} {out.get('errors')}")
+        alone[d] = out["snaps"][0][d]
+    pairs = 0
+    reported: set = set()
+    for order, out in zip(orders, outs[:len(orders)]):
+        chk.count("run:L")
+        if out.get("crash"):
+            raise HarnessError("C19 load-interference child crashed: " + str(out["crash"])[:400])
+        if out.get("hang"):
+            chk.report_violation("hang:load-interference", f"loading {order} one after the other never finished",
+                                 {"spec": public_spec(load_spec(order))}, context={"mode": "L"})
+            continue
+        for e in out.get("errors", []):
+            chk.report_violation("raise:load-interference:" + e.split(":")[1].strip() if ":" in e else "raise:load-interference",
+                                 e, {"spec": public_spec(load_spec(order))}, context={"mode": "L"})
+        snaps = out["snaps"]
+        chk.case(("L", tuple(order)), nontrivial=True,
+                 sample={"mode": "L", "order": order, "tables_per_dialect": len(snaps[0][order[0]]["fp"]) if snaps else 0} if pairs == 0 else None)
+        for j, x in enumerate(order):
+            for kk in range(j + 1, len(snaps)):
+                pairs += 1
+                if x not in snaps[kk] or x not in snaps[j]:
+                    continue
+                small = None
+                for d in _snap_diffs(snaps[j][x], snaps[kk][x]):
+                    if (d[0], d[1]) in reported:   # one report per table (whatever X): the key does not name X
+                        continue
+                    reported.add((d[0], d[1]))
+                    y = order[kk]
+                    # minimise: X then Y alone in a fresh process
+                    if small is None:
+                        small = runner.run(load_spec([x, y]))
+                    dms = _snap_diffs(small["snaps"][0][x], small["snaps"][1][x]) if len(small.get("snaps", [])) == 2 else []
+                    dm = next((z for z in dms if z[:2] == d[:2]), None)
+                    spec = load_spec([x, y]) if dm else load_spec(order[:kk + 1])
+                    d = dm or d
+                    if d[0] == "table":
+                        src = (small["snaps"][0][x], small["snaps"][1][x]) if dm else (snaps[j][x], snaps[kk][x])
+                        ans = [{"sql": LOAD_PROBES[i], "before": a[:300], "after": b[:300]}
+                               for i, (a, b) in enumerate(zip(src[0]["probes"], src[1]["probes"])) if a != b][:2]
+                        chk.report_violation(f"class-table-changed:{d[1]}",
+                                             f"the first use of {y} (in another thread) changed {x}'s class-level table {d[1]}: fingerprint {d[2]} -> {d[3]}"
+                                             + (f"; e.g. {x} {ans[0]['sql']!r}: {ans[0]['before'][:120]!r} -> {ans[0]['after'][:120]!r}" if ans else ""),
+                                             {"spec": public_spec(spec), "observed": {"x": x, "y": y, "table": d[1], "before": d[2], "after": d[3], "answers_changed": ans}},
+                                             context={"mode": "L"})
+                    else:
+                        chk.report_violation(f"load-changes-answer:probe{d[1]}",
+                                             f"{x}: {LOAD_PROBES[d[1]]!r} gave {d[2][:200]!r} before and {d[3][:200]!r} after the first use of {y} in another thread",
+                                             {"spec": public_spec(spec), "observed": {"x": x, "y": y, "sql": LOAD_PROBES[d[1]], "before": d[2], "after": d[3]}},
+                                             context={"mode": "L"})
+        # (b) the last one against a process that loaded nothing else
+        x = order[-1]
+        for d in (_snap_diffs(alone[x], snaps[-1][x]) if len(snaps) == len(order) and x in alone else []):
+            if True:
+                what = (f"table {d[1]}" if d[0] == "table" else f"answer to {LOAD_PROBES[d[1]]!r}")
+                key = f"class-table-depends-on-load-order:{d[1]}" if d[0] == "table" else f"answer-depends-on-load-order:probe{d[1]}"
+                chk.report_violation(key, f"{x}'s {what} differs when {order[:-1]} were used first: alone {str(d[2])[:200]!r}, after them {str(d[3])[:200]!r}",
+                                     {"spec": public_spec(load_spec(order)), "compare_with": public_spec(load_spec([x])),
+                                      "observed": {"x": x, "alone": d[2], "after_others": d[3]}}, context={"mode": "L"})
+    chk.cov["load_interference"] = {"processes": len(specs), "xy_pairs_checked": pairs, "probes": len(LOAD_PROBES)}
 
 
 def route_targets() -> list:
@@ -1737,6 +2096,7 @@ def run(chk: Check) -> None:
         specs = corpus + routes + shared + specs
         base.ensure(list(all_ops(specs)), True)
         t0 = time.time()
+        load_interference(chk, runner, workers, boost)
         order_dependence(chk, runner, base, specs, workers)
         chunk = workers * 3
         done = 0
@@ -1784,6 +2144,25 @@ def replay(path: str) -> int:
     try:
         base = Baseline(runner)
         spec = r["spec"]
+        if spec.get("mode") == "L":
+            out = runner.run(spec)
+            snaps = out.get("snaps", [])
+            order = spec["order"]
+            for j, x in enumerate(order):
+                for kk in range(j + 1, len(snaps)):
+                    d = _snap_diff(snaps[j][x], snaps[kk][x])
+                    if d:
+                        print(f"replay: VIOLATES: the first use of {order[kk]} changed {x}'s {d[0]} {d[1]}: {str(d[2])[:200]} -> {str(d[3])[:200]}")
+                        return 1
+            if "compare_with" in r:
+                ref = runner.run(r["compare_with"])
+                x = order[-1]
+                d = _snap_diff(ref["snaps"][0][x], snaps[-1][x])
+                if d:
+                    print(f"replay: VIOLATES: {x}'s {d[0]} {d[1]} depends on what was loaded before: {str(d[2])[:200]} vs {str(d[3])[:200]}")
+                    return 1
+            print("replay: holds")
+            return 0
         if spec.get("mode") == "alone-vs-sequential":
             print("replay: compare the call alone in a fresh process with the same call after the other calls:", json.dumps(r)[:1500])
             return 1
